@@ -226,7 +226,7 @@ class RunLengthArray(NPSIndexable, np.lib.mixins.NDArrayOperatorsMixin):
         """
         Size of the array
         """
-        return self._ends[-1]
+        return len(self)  # also for an array without runs (an empty slice), where there is no last end
 
     @property
     def shape(self) -> Tuple[int]:
